@@ -85,7 +85,7 @@ func Encode(b []byte, v int32) int {
 		b[0] = byte(u>>28) | 0xf0
 		b[1] = byte(u >> 20)
 		b[2] = byte(u >> 12)
-		b[3] = byte(u >> 2)
+		b[3] = byte(u >> 4)
 		b[4] = byte(u)
 		return 5
 	}
